@@ -500,7 +500,10 @@ def drained(chk, crate, ctx):
     zvt = ctx.crate("zvt")
     # reply enums = the types a packet can be parsed into (impl ZvtParser)
     replies = {ty_str(im["self"]) for im in zvt.impls if im.get("trait") == "zvt_builder::ZvtParser"}
-    chk.floor("reply enums (impl ZvtParser)", len(replies), 17)
+    # (counted per command: several commands may share one reply enum)
+    n_cmd = sum(1 for im in zvt.impls if im.get("trait") == "zvt::sequences::Sequence" and
+                any(ty_str(t_["ty"]) in replies for t_ in im.get("types", []) if t_.get("name") == "Output"))
+    chk.floor("commands whose reply enum implements ZvtParser", n_cmd, 17)
     n_edges = 0
     for name in CLIENT_FNS:
         try:
